@@ -25,7 +25,7 @@ def _units_body(tier, seed):
         u.name = 'header/' + u.name
     from checks import tables as _tables
     _table_units = _tables.units(_tables.TLS)
-    return list(us) + hdr + [hello.unit(('K6', 'K3'), 'K6+K3'), hello.decode_unit(), helloext.unit(), serverhello.unit(), certrequest.unit()] + foundation.units(tier, seed) + _table_units
+    return list(us) + hdr + [hello.unit(('K6', 'K3'), 'K6+K3'), hello.decode_unit(), helloext.unit(), serverhello.unit(), serverhello.hrr_unit(), certrequest.unit()] + foundation.units(tier, seed) + _table_units
 
 
 
